@@ -25,5 +25,11 @@ CHECKS = {
         "technique": "property-based testing: model-based (stateful) history generation with Hypothesis, list-model oracle, shrinking to replay JSON",
     },
 }
+CHECKS["C14"] = {
+    "text": "Model-based history testing of all ten model types: generated edit histories (item assignment incl. zeros, augmented assignment, in-place arithmetic with scalars/dicts/models, update, clear, refresh, comparison constraints, copies) with bookkeeping invariants checked against the stored polynomial after every step, truth-table validation (min over ancillas == model) of every to_* form at generated points, and an ancilla-reuse probe. Exploration within bounded histories (<=30 steps, <=5 labels).",
+    "design_ref": "DESIGN.md section 4, C14",
+    "note": "Trusted: vf/ref.py evaluator and numpy truth tables; the model's stored dict as ground truth for 'true' variables/degree. Reduced forms compared with tolerance 1e-9*sum|coef|.",
+    "technique": "property-based testing: model-based (stateful) edit-history generation with Hypothesis, invariant-after-every-step and truth-table oracles, shrinking to replay JSON",
+}
 for e in ENGINES:
     e["serves_properties"] = sorted(CHECKS)
